@@ -15,6 +15,7 @@
 #
 import threading
 import time
+import traceback
 from abc import ABC, abstractmethod
 
 from uberjob.progress._progress_observer import ProgressObserver
@@ -56,6 +57,14 @@ def _get_progress_string(*, completed, failed, running, total):
     if failed:
         progress_string = f"{progress_string}, {failed} failed"
     return progress_string
+
+
+def format_exception_tuple(exception_tuple) -> str:
+    try:
+        return "".join(traceback.format_exception(*exception_tuple))
+    except Exception:
+        # traceback cannot format every exception, e.g. a SyntaxError whose text is not a str.
+        return f"{exception_tuple[0].__name__} (the traceback could not be formatted)\n"
 
 
 def get_elapsed_string(elapsed: float) -> str:
